@@ -67,6 +67,7 @@ Definition K_EncryptMetadata := Eval cbv in bs "EncryptMetadata".
 Definition K_CF := Eval cbv in bs "CF".
 Definition K_StmF := Eval cbv in bs "StmF".
 Definition K_StrF := Eval cbv in bs "StrF".
+Definition K_EFF := Eval cbv in bs "EFF".
 Definition K_CFM := Eval cbv in bs "CFM".
 Definition K_ID := Eval cbv in bs "ID".
 Definition K_Name := Eval cbv in bs "Name".
@@ -81,6 +82,7 @@ Definition N_XRef := Eval cbv in bs "XRef".
 Definition N_Metadata := Eval cbv in bs "Metadata".
 Definition N_Crypt := Eval cbv in bs "Crypt".
 Definition N_ObjStm := Eval cbv in bs "ObjStm".
+Definition N_EmbeddedFile := Eval cbv in bs "EmbeddedFile".
 
 (* ---------- crypt filters ---------- *)
 Inductive cfm := CF_Identity | CF_RC4 | CF_AESV2 | CF_AESV3.
@@ -191,10 +193,12 @@ Record palg := {
   pa_perms_enc : bytes;
 }.
 
-(* Document::get_encrypted / is_encrypted *)
+(* Document::get_encrypted / is_encrypted: the value of Encrypt is the encryption dictionary itself or a
+   reference to it *)
 Definition get_encrypted (d : doc) : option dict :=
   match dict_get (d_trailer d) K_Encrypt with
   | Some (ORef i g) => get_dictionary (d_objects d) (i, g)
+  | Some (ODict e) => Some e
   | _ => None
   end.
 Definition is_encrypted (d : doc) : bool :=
@@ -512,6 +516,7 @@ Record estate := {
   es_key : bytes;
   es_stmf : bytes;
   es_strf : bytes;
+  es_eff : option bytes;          (* embedded_file_filter: the EFF entry, read by decode only *)
   es_O : bytes;
   es_OE : bytes;
   es_U : bytes;
@@ -553,7 +558,7 @@ Definition try_from_r4 (P : prims) (d : doc) (a0 : palg) (owner user : bytes) (r
   rlet k := compute_fek_r4 P a d user in
   Ok {| es_version := pa_version a; es_revision := pa_revision a; es_key_length := pa_length a;
         es_encrypt_metadata := pa_encrypt_metadata a; es_crypt_filters := cfs; es_key := k;
-        es_stmf := stmf; es_strf := strf; es_O := o; es_OE := []; es_U := u; es_UE := [];
+        es_stmf := stmf; es_strf := strf; es_eff := None; es_O := o; es_OE := []; es_U := u; es_UE := [];
         es_perms := pa_perms a; es_perms_enc := [] |}.
 
 (* R5 / V5: U, UE (Algorithm 8), then O, OE (Algorithm 9), then Perms (Algorithm 10) *)
@@ -567,7 +572,7 @@ Definition try_from_r6 (P : prims) (a0 : palg) (fek owner user : bytes) (rnd : l
     let pe := perms_r6 P a fek (draw rnd 2) in
     Ok {| es_version := pa_version a; es_revision := pa_revision a; es_key_length := pa_length a;
           es_encrypt_metadata := pa_encrypt_metadata a; es_crypt_filters := cfs; es_key := fek;
-          es_stmf := stmf; es_strf := strf; es_O := o; es_OE := oe; es_U := u; es_UE := ue;
+          es_stmf := stmf; es_strf := strf; es_eff := None; es_O := o; es_OE := oe; es_U := u; es_UE := ue;
           es_perms := pa_perms a; es_perms_enc := pe |}.
 
 (* impl TryFrom<EncryptionVersion> for EncryptionState *)
@@ -601,7 +606,8 @@ Definition encode (st : estate) : dict :=
                               (es_crypt_filters st) [] in
              let e := dict_set e K_CF (ODict filters) in
              let e := dict_set e K_StmF (OName (es_stmf st)) in
-             dict_set e K_StrF (OName (es_strf st))
+             let e := dict_set e K_StrF (OName (es_strf st)) in
+             match es_eff st with Some n => dict_set e K_EFF (OName n) | None => e end
            else e in
   if (5 <=? es_revision st)%Z then
     let e := dict_set e K_OE (OStr (es_OE st) false) in
@@ -650,9 +656,10 @@ Definition decode (P : prims) (d : doc) (pw : bytes) : res estate :=
         let v45 := (pa_version a =? 4)%Z || (pa_version a =? 5)%Z in
         let stmf := if v45 then match dict_get e K_StmF with Some (OName n) => n | _ => N_Identity end else [] in
         let strf := if v45 then match dict_get e K_StrF with Some (OName n) => n | _ => N_Identity end else [] in
+        let eff := if v45 then match dict_get e K_EFF with Some (OName n) => Some n | _ => None end else None in
         Ok {| es_version := pa_version a; es_revision := pa_revision a; es_key_length := pa_length a;
               es_encrypt_metadata := pa_encrypt_metadata a; es_crypt_filters := cfs; es_key := k;
-              es_stmf := stmf; es_strf := strf; es_O := pa_O a; es_OE := pa_OE a; es_U := pa_U a;
+              es_stmf := stmf; es_strf := strf; es_eff := eff; es_O := pa_O a; es_OE := pa_OE a; es_U := pa_U a;
               es_UE := pa_UE a; es_perms := pa_perms a; es_perms_enc := pa_perms_enc a |}
     | _ => Err E_DictKey
     end
@@ -664,6 +671,9 @@ Definition get_crypt_filter (st : estate) (name : bytes) : cfm :=
   else match bt_get (es_crypt_filters st) name with Some f => f | None => CF_RC4 end.
 Definition stream_filter (st : estate) : cfm := get_crypt_filter st (es_stmf st).
 Definition string_filter (st : estate) : cfm := get_crypt_filter st (es_strf st).
+(* get_embedded_file_filter: the filter EFF names, the stream filter if there is no EFF entry *)
+Definition embedded_file_filter (st : estate) : cfm :=
+  match es_eff st with Some n => get_crypt_filter st n | None => stream_filter st end.
 
 (* ---------- encrypt_object / decrypt_object ---------- *)
 Definition is_xref_stream (o : obj) : bool :=
@@ -683,15 +693,28 @@ Definition stream_filters (d : dict) : option (list bytes) :=
   | _ => None
   end.
 
-(* the per-stream Crypt filter override: a stream whose Filter lists Crypt always has one; whatever is
-   missing or ill-typed on the way to DecodeParms.Name, and an unknown name, give Identity *)
+(* filters.iter().position(|filter| *filter == b"Crypt") *)
+Fixpoint position (n : bytes) (l : list bytes) : option nat :=
+  match l with
+  | [] => None
+  | x :: r => if bytes_eqb x n then Some 0%nat else option_map S (position n r)
+  end.
+
+(* get_override_crypt_filter: a stream whose Filter lists Crypt always has one.  Its decode parameters are the
+   DecodeParms entry, or -- DecodeParms being an array -- the element at the position Crypt has among the
+   filters; whatever is missing or ill-typed on the way to their Name, and an unknown name, give Identity *)
 Definition override_filter (st : estate) (o : obj) : option cfm :=
   match o with
   | OStream d _ =>
     match stream_filters d with
     | Some fs =>
-      if existsb (bytes_eqb N_Crypt) fs then
-        Some (match dict_get d K_DecodeParms with
+      match position N_Crypt fs with
+      | Some k =>
+        let params := match dict_get d K_DecodeParms with
+                      | Some (OArr ps) => nth_error ps k
+                      | other => other
+                      end in
+        Some (match params with
               | Some (ODict dp) =>
                 match dict_get dp K_Name with
                 | Some (OName n) => match bt_get (es_crypt_filters st) n with Some f => f | None => CF_Identity end
@@ -699,14 +722,24 @@ Definition override_filter (st : estate) (o : obj) : option cfm :=
                 end
               | _ => CF_Identity
               end)
-      else None
+      | None => None
+      end
     | None => None
     end
   | _ => None
   end.
 
+(* the crypt filter of a stream: its own (Crypt filter), else the one of the embedded file streams for a
+   stream of Type EmbeddedFile, else the stream filter *)
 Definition stream_cf (st : estate) (o : obj) : cfm :=
-  match override_filter st o with Some f => f | None => stream_filter st end.
+  match override_filter st o with
+  | Some f => f
+  | None =>
+    match o with
+    | OStream d _ => if has_type d N_EmbeddedFile then embedded_file_filter st else stream_filter st
+    | _ => stream_filter st
+    end
+  end.
 
 (* Stream::set_content *)
 Definition set_content (d : dict) (c : bytes) : obj :=
@@ -810,11 +843,12 @@ Fixpoint encrypt_objects (P : prims) (st : estate) (m : objmap) (ivs : list byte
     Ok ((id, fst r1) :: fst r2, snd r2)
   end.
 
-Fixpoint decrypt_objects (P : prims) (st : estate) (skip : oid) (m : objmap) : res objmap :=
+Fixpoint decrypt_objects (P : prims) (st : estate) (skip : option oid) (m : objmap) : res objmap :=
   match m with
   | [] => Ok []
   | (id, o) :: m' =>
-    rlet o' := (if oid_eqb id skip then Ok o else decrypt_object P st id o) in
+    rlet o' := (if (match skip with Some s => oid_eqb id s | None => false end) then Ok o
+                else decrypt_object P st id o) in
     rlet r := decrypt_objects P st skip m' in
     Ok ((id, o') :: r)
   end.
@@ -883,25 +917,23 @@ Definition doc_decrypt_raw (P : prims) (d : doc) (pw : bytes) : dres estate :=
     | Err e => DErr e
     | Panic => DPanic
     | Ok _ =>
-      match dict_get (d_trailer d) K_Encrypt with
-      | Some (ORef i g) =>
-        match decode P d pw with
-        | Err e => DErr e
+      (* the id of the encryption dictionary if it is an indirect object: skipped, and removed at the end *)
+      let eid := match dict_get (d_trailer d) K_Encrypt with Some (ORef i g) => Some (i, g) | _ => None end in
+      match decode P d pw with
+      | Err e => DErr e
+      | Panic => DPanic
+      | Ok st =>
+        match decrypt_objects P st eid (d_objects d) with
+        | Err e => DErrMid e
         | Panic => DPanic
-        | Ok st =>
-          match decrypt_objects P st (i, g) (d_objects d) with
-          | Err e => DErrMid e
-          | Panic => DPanic
-          | Ok objs =>
-            if has_objstm objs then DUnmodelled
-            else
-              DOk {| d_version := d_version d; d_binary_mark := d_binary_mark d;
-                     d_trailer := dict_swap_remove (d_trailer d) K_Encrypt;
-                     d_objects := remove objs (i, g);
-                     d_max_id := d_max_id d |} st
-          end
+        | Ok objs =>
+          if has_objstm objs then DUnmodelled
+          else
+            DOk {| d_version := d_version d; d_binary_mark := d_binary_mark d;
+                   d_trailer := dict_swap_remove (d_trailer d) K_Encrypt;
+                   d_objects := (match eid with Some id => remove objs id | None => objs end);
+                   d_max_id := d_max_id d |} st
         end
-      | _ => DErr E_ObjectType
       end
     end.
 
